@@ -1032,6 +1032,7 @@ package websocket
 //@ tags C19
 //@ requires 0 - 2 <= key.compressionLevel && key.compressionLevel <= 9 && pm.frames != nil && region(pm.data) >= 0 && region(pm.data) < alloc() && live(pm.data)
 //@ ensures[C19.type] r0 == pm.messageType
+//@ assert at call:Do#1[C19.cache]: haskey(pm.frames, key) && pm.frames[key] == frame
 //@ ensures[C19.own] imp(!old(haskey(pm.frames, key)) && r2 == nil, region(r1) == 0 || region(r1) >= old(alloc()))
 
 // The rendering closure run under the frame's sync.Once.
